@@ -148,6 +148,8 @@ class Cx:
 
     def truth(self, op, l, r):
         l, r = deref(l), deref(r)
+        if isinstance(l, str) and isinstance(r, str):
+            return {"Eq": l == r, "Ne": l != r, "Lt": l < r, "Le": l <= r, "Gt": l > r, "Ge": l >= r}[op]
         if isinstance(l, bool) or isinstance(r, bool):
             return {"Eq": l == r, "Ne": l != r}[op]
         if isinstance(l, int) and isinstance(r, int):
@@ -162,6 +164,9 @@ class Cx:
             return False      # a non-zero polynomial is non-zero for generic data
         if op == "Ne":
             return True
+        if getattr(self, "oracle", None) is not None:
+            # an ordering of symbolic magnitudes: the caller enumerates both outcomes (case analysis over the orderings)
+            return bool(self.oracle(op, l, r))
         raise CxUnknown("ordering test on symbolic data: %r %s %r" % (l, op, r))
 
     # ---- lvalues
@@ -215,6 +220,8 @@ class Cx:
             return int(m.group(1))
         if lk == "Float":
             return Poly.const(lit_fraction(str(e["v"])))
+        if lk in ("Str", "Char"):
+            return str(e["v"])
         raise CxUnknown("literal %s" % lk)
 
     def e_Path(self, e, env):
@@ -502,7 +509,7 @@ class Cx:
             if nm == "iter_mut":
                 v = deref(self.ev(recv, env))
                 if isinstance(v, list):
-                    return [Cell(v, i) for i in range(len(v))]
+                    return [x if isinstance(x, Cell) else Cell(v, i) for i, x in enumerate(v)]
             if nm == "rev" and not it["args"]:
                 return list(reversed(self.iterate(recv, env)))
             if nm in ("copied", "cloned", "by_ref") and not it["args"]:
@@ -594,6 +601,25 @@ class Cx:
                 i, j = deref(self.ev(args[0], env)), deref(self.ev(args[1], env))
                 rv[i], rv[j] = rv[j], rv[i]
                 return None
+        if isinstance(rv, str):
+            # string values (names matched by the option / method parsers)
+            if nm in ("to_uppercase", "to_ascii_uppercase"):
+                return rv.upper()
+            if nm in ("to_lowercase", "to_ascii_lowercase"):
+                return rv.lower()
+            if nm in ("as_str", "to_string", "to_owned", "clone", "as_ref", "borrow", "into", "deref"):
+                return rv
+            if nm == "trim":
+                return rv.strip()
+            if nm == "len":
+                return len(rv)
+            if nm == "is_empty":
+                return rv == ""
+            if nm in ("eq_ignore_ascii_case", "eq", "ne", "starts_with", "ends_with", "contains") and len(args) == 1:
+                o = deref(self.ev(args[0], env))
+                if isinstance(o, str):
+                    return {"eq_ignore_ascii_case": rv.lower() == o.lower(), "eq": rv == o, "ne": rv != o, "starts_with": rv.startswith(o),
+                            "ends_with": rv.endswith(o), "contains": o in rv}[nm]
         if isinstance(rv, int) and not isinstance(rv, bool):
             if nm in ("min", "max") and len(args) == 1:
                 o = deref(self.ev(args[0], env))
